@@ -421,6 +421,10 @@ Dev_KnownListMutated(stores, reads, inf) ==
 \* loop-else seen through inferred values): a node of the loop that reads a variable assigned in the else clause is typed
 \* with that assignment's value too, and narrowing on it can go wrong (x[0] typed Never)
 KeyWhileElse == "loop-else-assignment-seen-in-loop"
+\* ---- (j) a subscript / attribute (x[0]) has no definition at the entry of a loop, so at the head of the body the
+\* narrowing a test / assert inside the loop applies to it is all the checker knows about it: the node is typed with
+\* the narrowed value of the previous pass although the first iteration reads the un-narrowed element
+KeyLoopComposite == "composite-narrowing-carried-around-loop"
 \* ---- domain: a value that came out of an expression typed Any (gradual typing: an Any argument does not take part in
 \* solving a type variable, so min(<Any>, y) is typed like y)
 KeyAny == "flows-from-any"
